@@ -132,14 +132,10 @@ func (s *secretStore) postDecryptActions(ctx context.Context, decryptionCtx *dec
 		return errcode.ErrCode_ErrDeserialization.Wrap(err)
 	}
 
-	if err = s.putKeyForCID(ctx, decryptionCtx.cid, decryptionCtx.messageKey); err != nil {
-		return errcode.ErrCode_ErrInternal.Wrap(err)
-	}
-
-	if err = s.delPrecomputedKey(ctx, groupPublicKey, devicePublicKey, msgHeaders.Counter); err != nil {
-		return errcode.ErrCode_ErrInternal.Wrap(err)
-	}
-
+	// Slide the window of precomputed keys before recording the message key
+	// by CID: if the process stops in between, the message is still opened
+	// through its precomputed key on the next attempt and the window is slid
+	// again, instead of being found by CID without ever sliding the window.
 	if deviceChainKey, err = s.preComputeNextKey(ctx, groupPublicKey, devicePublicKey); err != nil {
 		return errcode.ErrCode_ErrInternal.Wrap(err)
 	}
@@ -150,6 +146,14 @@ func (s *secretStore) postDecryptActions(ctx context.Context, decryptionCtx *dec
 		if err = s.updateCurrentKey(ctx, groupPublicKey, devicePublicKey, deviceChainKey); err != nil {
 			return errcode.ErrCode_ErrInternal.Wrap(err)
 		}
+	}
+
+	if err = s.putKeyForCID(ctx, decryptionCtx.cid, decryptionCtx.messageKey); err != nil {
+		return errcode.ErrCode_ErrInternal.Wrap(err)
+	}
+
+	if err = s.delPrecomputedKey(ctx, groupPublicKey, devicePublicKey, msgHeaders.Counter); err != nil {
+		return errcode.ErrCode_ErrInternal.Wrap(err)
 	}
 
 	return nil
